@@ -147,7 +147,7 @@ contract(
 
 
 # ---------------------------------------------------------------- parse_lines over real PQR lines (layout logic)
-from pyvc.api import Bool, NameTok  # noqa: E402
+from pyvc.api import Bool, NameTok, OneOf, Items, Opt, Enum, Loop  # noqa: E402
 
 
 
@@ -199,6 +199,79 @@ def parse_two(a, b, chainflag):
              a.get_pqr_string(chainflag=chainflag) + "\n",
              "REMARK   5\n", b.get_pqr_string(chainflag=chainflag) + "\n", "TER\n", "END"]
     size.parse_lines(lines)
+    return size
+
+
+# ---------------------------------------------------------------- parse_lines, the induction step: ANY number of atoms
+# From an arbitrary accumulated state (bounds unset or any reals, any counts) one more atom line turns every bound into
+# min / max of the old bound and the atom's sphere, adds its charge and counts it; a header / comment / bookkeeping line
+# changes nothing.  The loop carries no other state (its locals are re-assigned in every iteration: checked by the
+# loop cut of the harness below), so by induction the box is the exact extent of all spheres for any number of lines.
+def merged_lo(old_, new_):
+    return new_ if old_ is None else min(old_, new_)
+
+
+def merged_hi(old_, new_):
+    return new_ if old_ is None else max(old_, new_)
+
+
+STEP_ENS = [
+    "size.minlen[0] == merged_lo(old(size.minlen[0]), lo(a, a.x)) and size.maxlen[0] == merged_hi(old(size.maxlen[0]), hi(a, a.x))",
+    "size.minlen[1] == merged_lo(old(size.minlen[1]), lo(a, a.y)) and size.maxlen[1] == merged_hi(old(size.maxlen[1]), hi(a, a.y))",
+    "size.minlen[2] == merged_lo(old(size.minlen[2]), lo(a, a.z)) and size.maxlen[2] == merged_hi(old(size.maxlen[2]), hi(a, a.z))",
+    "size.gotatom + size.gothet == old(size.gotatom + size.gothet) + 1",
+    "size.charge == old(size.charge) + pv(a.ffcharge, '.4f')",
+    "forall(range(3), lambda i: size.minlen[i] is not None and size.maxlen[i] is not None)",
+]
+# (bounds are unset together - before the first atom - or set together; both cases re-established by the step)
+UNSET = Items(Const(None), Const(None), Const(None))
+STEP_SIZE = Obj("pdb2pqr.psize:Psize", minlen=OneOf(UNSET, ListOf(Real, 3)), maxlen=OneOf(UNSET, ListOf(Real, 3)),
+                charge=Real, gotatom=Int, gothet=Int)
+
+
+@harness("C17", params={"a": PATOM("a", type=Const("ATOM")), "chainflag": Const(True), "size": STEP_SIZE},
+         requires=[FITS.format(a="a")], ensures=STEP_ENS, name="parse_lines.step.ATOM")
+def step_atom(a, chainflag, size):
+    size.parse_lines([a.get_pqr_string(chainflag=chainflag) + "\n"])
+    return size
+
+
+@harness("C17", params={"a": PATOM("a", type=Const("HETATM")), "chainflag": Const(True), "size": STEP_SIZE},
+         requires=[FITS.format(a="a")], ensures=STEP_ENS, name="parse_lines.step.HETATM")
+def step_hetatm(a, chainflag, size):
+    size.parse_lines([a.get_pqr_string(chainflag=chainflag) + "\n"])
+    return size
+
+
+@harness("C17",
+         params={"size": Obj("pdb2pqr.psize:Psize", minlen=ListOf(Opt(Real), 3), maxlen=ListOf(Opt(Real), 3), charge=Real,
+                             gotatom=Int, gothet=Int),
+                 "k": Enum(0, 1, 2, 3, 4, 5)},
+         requires=[],
+         ensures=["forall(range(3), lambda i: size.minlen[i] is old(size.minlen[i]) and size.maxlen[i] is old(size.maxlen[i]))",
+                  "size.gotatom == old(size.gotatom) and size.gothet == old(size.gothet) and size.charge == old(size.charge)"],
+         name="parse_lines.step.other_line")
+def step_other(size, k):
+    lines = ["REMARK   1 PQR file generated by PDB2PQR\n", "REMARK   5\n", "\n", "TER\n", "END",
+             "REMARK   5    1 N   MET A   1      13.5 -2.25 100.0 1.0 2.0 (omitted below)\n"]
+    size.parse_lines([lines[k]])
+    return size
+
+
+# the loop of parse_lines carries nothing from one line to the next except the accumulated fields of `self`: cut at a
+# trivial invariant with every loop-local temporary poisoned - a read of a stale temporary cannot be interpreted
+@harness("C17", params={"a": PATOM("a"), "chainflag": Const(True), "size": STEP_SIZE},
+         requires=[FITS.format(a="a"), "forall(range(3), lambda i: (size.minlen[i] is None) == (size.maxlen[i] is None))"],
+         ensures=["size.gotatom + size.gothet >= 0 or size.gotatom + size.gothet < 0"],
+         loops={"pdb2pqr.psize:Psize.parse_lines#0": Loop(
+             shape="lines", invariants=["forall(range(3), lambda i: (self.minlen[i] is None) == (self.maxlen[i] is None))"],
+             modifies={"self.minlen": OneOf(UNSET, ListOf(Real, 3)), "self.maxlen": OneOf(UNSET, ListOf(Real, 3)),
+                       "self.charge": Real, "self.gotatom": Int, "self.gothet": Int,
+                       "line": "rebound", "subline": "rebound", "words": "rebound", "rad": "rebound", "center": "rebound",
+                       "i": "rebound", "word": "rebound"})},
+         name="parse_lines.loop_carries_only_self")
+def loop_frame(a, chainflag, size):
+    size.parse_lines(["REMARK   5\n", a.get_pqr_string(chainflag=chainflag) + "\n", "TER\n"])
     return size
 
 
